@@ -88,6 +88,9 @@ def run(ctx):
                     s[int(rng.integers(N)), int(rng.integers(D))] = [np.nan, np.inf, -np.inf, -7.5][int(rng.integers(4))]
         if kind == 0 and rng.random() < 0.5:
             s = F.transform.to_rfi(s)
+        if kind in (0, 1) and rng.random() < 0.3:
+            s, _dtag = zoo.derive(rng, s)                       # a sample in the middle of an analysis
+            D = s.shape[1]
         k = int(rng.integers(1, min(D, 4) + 1))
         covered = [int(x) for x in rng.permutation(D)[:k]]
         cl = curves(rng, k)
